@@ -3,6 +3,7 @@
 -/
 import LMV.Lemmas.Stripe
 import LMV.Model.StripeAvx2
+import Mathlib.Tactic.SplitIfs
 
 namespace LMV
 namespace C04
@@ -87,6 +88,227 @@ theorem stripeGeneric_inv (hC : 0 < C) (N : Nat) (s : List Nat) (old : Striped C
     intro t c ht hc
     rw [stripeGeneric_wrap] at ht
     exact stripeGeneric_get hC N s old t c (by omega) hc
+
+/-! ### (3) `configure_wrap` preserves the invariant — any `m`, any earlier wrap, also `m > R`, `R = 0` -/
+
+theorem pad_of_le (N : Nat) (s : List Nat) (p : Nat) (h : s.length ≤ p) : pad N s p = N :=
+  getD_of_le s p N h
+
+/-- one iteration of the outer loop of `configure_wrap` -/
+def wrapRow (N rows i : Nat) (d : Mat Nat C) : Mat Nat C :=
+  (shiftLoop (rows + i) i (C - 1) d).set (rows + i) (C - 1) N
+
+theorem wrapRow_rows (N rows i : Nat) (d : Mat Nat C) : (wrapRow N rows i d).rows = d.rows := by
+  simp [wrapRow, shiftLoop_rows]
+
+theorem wrapRow_get (hC : 0 < C) (N rows i : Nat) (d : Mat Nat C) (t c : Nat) (hc : c < C) :
+    (wrapRow N rows i d).get t c =
+      if t = rows + i ∧ rows + i < d.rows then (if c < C - 1 then d.get i (c + 1) else N)
+      else d.get t c := by
+  unfold wrapRow
+  rw [Mat.get_set, shiftLoop_rows, shiftLoop_get _ _ _ (by omega)]
+  split_ifs <;> first | rfl | (exfalso; omega)
+
+/-- state of the matrix after `i` iterations of the outer loop -/
+theorem wrapLoop_inv (hC : 0 < C) (N : Nat) (s : List Nat) (w m : Nat) (d0 : Mat Nat C)
+    (hrows : d0.rows = seqRowsOf C s.length + m)
+    (h0 : ∀ t c, t < seqRowsOf C s.length + m → c < C →
+      d0.get t c = if t < seqRowsOf C s.length + w then pad N s (c * seqRowsOf C s.length + t) else N)
+    (i : Nat) (hi : i ≤ m) :
+    ((List.range i).foldl (fun d i => wrapRow N (seqRowsOf C s.length) i d) d0).rows
+      = seqRowsOf C s.length + m ∧
+    ∀ t c, t < seqRowsOf C s.length + m → c < C →
+      ((List.range i).foldl (fun d i => wrapRow N (seqRowsOf C s.length) i d) d0).get t c =
+        if t < seqRowsOf C s.length + max i w
+        then pad N s (c * seqRowsOf C s.length + t) else N := by
+  induction i with
+  | zero =>
+    simp only [List.range_zero, List.foldl_nil]
+    refine ⟨hrows, ?_⟩
+    intro t c ht hc
+    rw [h0 t c ht hc, Nat.zero_max]
+  | succ i ih =>
+    have ⟨ihr, ihc⟩ := ih (by omega)
+    simp only [foldl_range_succ]
+    refine ⟨by rw [wrapRow_rows]; exact ihr, ?_⟩
+    intro t c ht hc
+    rw [wrapRow_get hC _ _ _ _ _ _ hc, ihr]
+    have hge := seqRowsOf_mul_ge hC s.length
+    by_cases h1 : t = seqRowsOf C s.length + i
+    · have hcond : t = seqRowsOf C s.length + i ∧
+          seqRowsOf C s.length + i < seqRowsOf C s.length + m := ⟨h1, by omega⟩
+      rw [if_pos hcond, if_pos (show t < seqRowsOf C s.length + max (i + 1) w by omega)]
+      by_cases h2 : c < C - 1
+      · rw [if_pos h2, ihc i (c + 1) (by omega) (by omega)]
+        have harith : (c + 1) * seqRowsOf C s.length + i = c * seqRowsOf C s.length + t := by
+          rw [h1, Nat.add_mul]; omega
+        rw [harith]
+        by_cases h3 : i < seqRowsOf C s.length + max i w
+        · rw [if_pos h3]
+        · rw [if_neg h3]
+          -- then `R = 0`: the sequence is empty and every padded read is the wildcard
+          have hR : seqRowsOf C s.length = 0 := by omega
+          rw [pad_of_le]
+          rw [hR] at hge; omega
+      · rw [if_neg h2, pad_of_le]
+        have hcc : c = C - 1 := by omega
+        have h5 : (C - 1 + 1) * seqRowsOf C s.length = C * seqRowsOf C s.length := by
+          rw [Nat.sub_add_cancel hC]
+        rw [Nat.add_mul] at h5
+        rw [h1, hcc]
+        have h6 : seqRowsOf C s.length * C = C * seqRowsOf C s.length := Nat.mul_comm _ _
+        omega
+    · have hcond : ¬ (t = seqRowsOf C s.length + i ∧
+          seqRowsOf C s.length + i < seqRowsOf C s.length + m) := fun h => h1 h.1
+      rw [if_neg hcond, ihc t c ht hc]
+      by_cases h3 : t < seqRowsOf C s.length + max i w
+      · rw [if_pos h3, if_pos (show t < seqRowsOf C s.length + max (i + 1) w by omega)]
+      · rw [if_neg h3, if_neg (show ¬ t < seqRowsOf C s.length + max (i + 1) w by omega)]
+
+theorem configureWrap_eq (N m : Nat) (st : Striped C) (hm : m > st.wrap) :
+    configureWrap N m st =
+      ⟨(List.range m).foldl (fun d i => wrapRow N (st.data.rows - st.wrap) i d)
+        (st.data.resize (st.data.rows + m - st.wrap) N), st.length, m⟩ := by
+  unfold configureWrap; rw [if_pos hm]; rfl
+
+theorem configureWrap_inv (hC : 0 < C) (N : Nat) (s : List Nat) (st : Striped C) (m : Nat)
+    (h : Inv N st s) : Inv N (configureWrap N m st) s := by
+  by_cases hm : m > st.wrap
+  · rw [configureWrap_eq N m st hm]
+    have hrow0 : st.data.rows - st.wrap = seqRowsOf C s.length := by rw [h.rows]; omega
+    have hd0 : (st.data.resize (st.data.rows + m - st.wrap) N).rows = seqRowsOf C s.length + m := by
+      rw [Mat.rows_resize, h.rows]; omega
+    have h0 : ∀ t c, t < seqRowsOf C s.length + m → c < C →
+        (st.data.resize (st.data.rows + m - st.wrap) N).get t c =
+          if t < seqRowsOf C s.length + st.wrap then pad N s (c * seqRowsOf C s.length + t) else N := by
+      intro t c ht hc
+      rw [Mat.get_resize, if_pos (by rw [h.rows]; omega), h.rows]
+      by_cases h1 : t < seqRowsOf C s.length + st.wrap
+      · rw [if_pos h1, if_pos h1, h.cell t c h1 hc]
+      · rw [if_neg h1, if_neg h1, if_pos hc]
+    have key := wrapLoop_inv hC N s st.wrap m _ hd0 h0 m (Nat.le_refl m)
+    rw [hrow0]
+    refine ⟨h.len, key.1, ?_⟩
+    intro t c ht hc
+    have := key.2 t c ht hc
+    rw [if_pos (show t < seqRowsOf C s.length + max m st.wrap by
+      have : t < seqRowsOf C s.length + m := ht
+      omega)] at this
+    exact this
+  · unfold configureWrap; rw [if_neg hm]; exact h
+
+theorem configure_inv (hC : 0 < C) (N : Nat) (s : List Nat) (st : Striped C) (M : Nat)
+    (h : Inv N st s) : Inv N (configure N M st) s := by
+  unfold configure
+  split
+  · exact configureWrap_inv hC N s st _ h
+  · exact h
+
+theorem configureWrap_wrap (N m : Nat) (st : Striped C) :
+    (configureWrap N m st).wrap = max m st.wrap := by
+  unfold configureWrap
+  split
+  · simp only; omega
+  · omega
+
+/-! ### every finite sequence of operations on one buffer (generic backend; the AVX2 kernel and the
+dispatcher arms are shown equal to it below) -/
+
+inductive StripeOp
+  | stripeInto (s : List Nat)   -- `stripe_into(s, &mut buf)` — also a fresh `stripe(s)`
+  | configureWrap (m : Nat)
+  | configure (motifLen : Nat)
+
+/-- effect of one operation on the buffer, and on the sequence the buffer is supposed to hold -/
+def StripeOp.apply (N : Nat) : StripeOp → Striped C × List Nat → Striped C × List Nat
+  | .stripeInto s', (st, _) => (stripeGeneric N s' st, s')
+  | .configureWrap m, (st, s) => (Striped.configureWrap N m st, s)
+  | .configure M, (st, s) => (Striped.configure N M st, s)
+
+/-- **C04, histories**: the invariant holds after every finite sequence of `stripe_into` /
+    `configure_wrap` / `configure` calls on one buffer, for any widths in any order. -/
+theorem ops_inv (hC : 0 < C) (N : Nat) (ops : List StripeOp) (st : Striped C) (s : List Nat)
+    (h : Inv N st s) :
+    Inv N (ops.foldl (fun x op => op.apply N x) (st, s)).1
+          (ops.foldl (fun x op => op.apply N x) (st, s)).2 := by
+  induction ops generalizing st s with
+  | nil => exact h
+  | cons op ops ih =>
+    simp only [List.foldl_cons]
+    cases op with
+    | stripeInto s' => exact ih _ _ (stripeGeneric_inv hC N s' st)
+    | configureWrap m => exact ih _ _ (configureWrap_inv hC N s st m h)
+    | configure M => exact ih _ _ (configure_inv hC N s st M h)
+
+/-- the empty buffer (`StripedSequence::default()`) satisfies the invariant for the empty sequence -/
+theorem empty_inv (hC : 0 < C) (N : Nat) : Inv N (Striped.empty : Striped C) [] where
+  len := rfl
+  rows := by
+    have : (C - 1) / C = 0 := Nat.div_eq_of_lt (by omega)
+    simp [Striped.empty, seqRowsOf, this]
+  cell := by
+    intro t c ht _
+    have : (C - 1) / C = 0 := Nat.div_eq_of_lt (by omega)
+    simp [Striped.empty, seqRowsOf, this] at ht
+
+/-! ### (4) look-ahead, as used by the scoring kernels -/
+
+/-- under the invariant, `j` rows below sequence row `r` one finds the symbols `j` positions later
+    in the same column's stretch of the sequence — also across the column boundary -/
+theorem lookahead (N : Nat) (st : Striped C) (s : List Nat) (h : Inv N st s)
+    (r j c : Nat) (hr : r < seqRowsOf C s.length) (hj : j ≤ st.wrap) (hc : c < C) :
+    st.data.get (r + j) c = pad N s (c * seqRowsOf C s.length + r + j) := by
+  rw [h.cell (r + j) c (by omega) hc, Nat.add_assoc]
+
+/-- look-ahead row `k` is sequence row `k` shifted left by one column (the last column gets the
+    wildcard) — the statement of the property -/
+theorem lookahead_row_shift (hC : 0 < C) (N : Nat) (st : Striped C) (s : List Nat) (h : Inv N st s)
+    (k c : Nat) (hk : k < st.wrap) (hc : c < C) :
+    st.data.get (seqRowsOf C s.length + k) c =
+      if c + 1 < C then st.data.get k (c + 1) else N := by
+  rw [h.cell _ c (by omega) hc]
+  have harith : c * seqRowsOf C s.length + (seqRowsOf C s.length + k) =
+      (c + 1) * seqRowsOf C s.length + k := by rw [Nat.add_mul]; omega
+  rw [harith]
+  by_cases h1 : c + 1 < C
+  · rw [if_pos h1]
+    by_cases hR : seqRowsOf C s.length = 0
+    · -- empty sequence: everything is the wildcard
+      have hge := seqRowsOf_mul_ge hC s.length
+      rw [hR] at hge
+      rw [h.cell k (c + 1) (by omega) h1, pad_of_le _ _ _ (by omega)]
+    · rw [h.cell k (c + 1) (by omega) h1]
+  · rw [if_neg h1, pad_of_le]
+    have hge := seqRowsOf_mul_ge hC s.length
+    have : c + 1 = C := by omega
+    rw [this, Nat.mul_comm]; omega
+
+/-! ### (5) reading back: `index` -/
+
+/-- indexing the striped sequence by `i < L` never panics and returns symbol `i`, before and after
+    any number of `configure_wrap` calls -/
+theorem index_eq (hC : 0 < C) (N : Nat) (st : Striped C) (s : List Nat) (h : Inv N st s)
+    (i : Nat) (hi : i < s.length) : st.index i = .ok (s.getD i N) := by
+  have hR := seqRowsOf_pos hC (show 0 < s.length by omega)
+  have hge := seqRowsOf_mul_ge hC s.length
+  have hrows : st.data.rows - st.wrap = seqRowsOf C s.length := by rw [h.rows]; omega
+  unfold Striped.index
+  simp only [hrows]
+  rw [if_neg (by omega)]
+  have hcol : i / seqRowsOf C s.length < C := by
+    apply Nat.div_lt_of_lt_mul; omega
+  have hrow : i % seqRowsOf C s.length < seqRowsOf C s.length := Nat.mod_lt _ hR
+  rw [if_pos ⟨by rw [h.rows]; omega, hcol⟩, h.cell _ _ (by omega) hcol]
+  have : i / seqRowsOf C s.length * seqRowsOf C s.length + i % seqRowsOf C s.length = i := by
+    rw [Nat.mul_comm]; exact Nat.div_add_mod i _
+  rw [this]; rfl
+
+/-! ### non-vacuity -/
+
+example : Inv 4 (stripeGeneric (C := 4) 4 [0, 2, 3, 1, 0] Striped.empty) [0, 2, 3, 1, 0] :=
+  stripeGeneric_inv (by decide) 4 _ _
+example : ((Striped.configureWrap 4 2 (stripeGeneric (C := 4) 4 [0, 2, 3, 1, 0] Striped.empty)).data.toLists)
+    = [[0, 3, 0, 4], [2, 1, 4, 4], [3, 0, 4, 4], [1, 4, 4, 4]] := by decide
 
 end C04
 end LMV
